@@ -794,6 +794,7 @@ type delivered struct {
 	typ    string
 	at     time.Time // delivery time
 	epoch  int
+	ev     tcell.Event // the application holds on to what it was handed: read again at the end of the case
 }
 
 type scenario struct {
@@ -910,7 +911,7 @@ func (sc *scenario) record(ev tcell.Event) {
 		}()
 		return describe(ev)
 	}()
-	rec := delivered{desc: d, typ: typ, at: now}
+	rec := delivered{desc: d, typ: typ, at: now, ev: ev}
 	func() {
 		defer func() {
 			if p := recover(); p != nil {
